@@ -73,16 +73,18 @@ def _bulk(v):
     return v[1].decode("latin1") if v[0] in ("$", "+") and v[1] is not None else None
 
 
-def read_key(c, kind, key):
+def read_key(c, kind, key, got=lambda: None):
     """Observed value of a key through one node: canonical python value, or ('error', text)."""
     if kind == "string":
         r = c.cmd("GET", key, timeout=CMD_TIMEOUT)
+        got()
         if r[0] == "-":
             return ("error", r[1].decode("latin1", "replace"))
         return _bulk(r)
     cmdv = {"list": ["LRANGE", key, "0", "-1"], "hash": ["HGETALL", key], "set": ["SMEMBERS", key],
             "zset": ["ZRANGE", key, "0", "-1", "WITHSCORES"], "stream": ["XRANGE", key, "-", "+"]}[kind]
     r = c.cmd(*cmdv, timeout=CMD_TIMEOUT)
+    got()
     if r[0] == "-":
         return ("error", r[1].decode("latin1", "replace"))
     items = r[1] or []
@@ -319,6 +321,10 @@ class Runner:
         self.t0 = time.time()
         self.conn = None
         self.conn_node = None
+        self.rlog = {}            # (node id, incarnation) -> tags of the replies the driver received, in order
+
+    def got(self, nd, tag=None):
+        self.rlog.setdefault((nd.id, nd.starts), []).append(tag)
 
     # -- plumbing
     def note(self, k, v):
@@ -348,6 +354,7 @@ class Runner:
                     r = c.cmd("PING")
                 finally:
                     c.close()
+                self.got(nd)
                 if r[0] in ("+", "$"):
                     pending.pop(0)
                     continue
@@ -382,6 +389,7 @@ class Runner:
                 c.send_raw(server.encode(w["argv"]))
             w["status"] = "unacked"
             r = c.read_reply(CMD_TIMEOUT)
+            self.got(nd, w["i"])
             if r[0] == "-":
                 w["status"] = "error"
                 w["err"] = r[1].decode("latin1", "replace")[:80]
@@ -391,6 +399,7 @@ class Runner:
             if pipeline_ping:
                 try:
                     c.read_reply(CMD_TIMEOUT)
+                    self.got(nd)
                 except Exception:
                     self.drop_conn()
         except Exception as ex:
@@ -638,7 +647,7 @@ class Runner:
                     obs = None
                     for attempt in range(3):
                         try:
-                            obs = read_key(c, ws[0]["kind"], key)
+                            obs = read_key(c, ws[0]["kind"], key, lambda nd=nd: self.got(nd))
                             break
                         except Exception:
                             c.close()
@@ -663,35 +672,57 @@ class Runner:
         return self.res
 
     def ids_of_acked(self):
-        """proposal id of every acknowledged write: the k-th reply the client received from a node is the k-th `reply`
-        event of that node that belongs to a write of this client (replies on a node are sequential per connection and
-        the driver uses one connection at a time; PINGs of wait_serving are counted out by their own proposals being
-        answered on other connections - so ids are matched by the order of reply events per node, skipping the ones
-        that precede the workload)."""
-        return {}
+        """Proposal id of every write the client got a reply for.  Every command of the driver goes through Raft and is
+        answered by the `reply` hook event of the node it was sent to; the driver talks to a node over one connection
+        at a time, so the k-th reply it received from incarnation j of a node is the k-th `reply` event of that
+        incarnation (a last reply event whose bytes never left the dying process has no counterpart and is ignored).
+        Returns None when the bookkeeping does not line up (then the coarse classification is used)."""
+        ids = {}
+        for nd in self.cl.nodes:
+            incs = incarnations(self.cl.events(nd))
+            if len(incs) != nd.starts:
+                return None
+            for j, inc in enumerate(incs, 1):
+                replies = [e.get("id") for e in inc if e.get("ev") == "reply"]
+                tags = self.rlog.get((nd.id, j), [])
+                if len(tags) > len(replies):
+                    return None
+                for k, tag in enumerate(tags):
+                    if tag is not None:
+                        ids[tag] = replies[k]
+        return ids
 
     def classify_losses(self, per_node_bad):
         sc = self.sc
         cl = self.cl
+        ids = self.ids_of_acked()
+        self.note("ids_matched", ids is not None)
         for nid, bads in sorted(per_node_bad.items()):
             nd = cl.nodes[nid - 1]
             incs = incarnations(cl.events(nd))
-            last = inc_facts(incs[-1]) if incs else {"start_snap": 0, "installed": False}
-            nwrites_lost = len(bads)
-            kinds = "+".join(sorted(set(w["kind"] for w, _ in bads)))
-            if last["start_snap"] > 0:
-                branch = "restart.after_snapshot"
-            elif last["installed"]:
-                branch = "catchup.by_snapshot"
-            else:
-                branch = sc["cls"]
-            w0, p0 = bads[0]
-            what = ("node %d after recovery: %d acknowledged write(s) not reflected, e.g. %s (%s; acknowledged %.2fs into the run); "
-                    "node's last start loaded snapshot index %d, installed a leader snapshot: %s" %
-                    (nid, nwrites_lost, " ".join(_short(a) for a in w0["argv"]), p0, w0.get("t_ack", -1), last["start_snap"], last["installed"]))
-            self.violation(branch, "lost-write", kinds, what,
-                           {"node": nid, "lost": [{"argv": [_short(a) for a in w["argv"]], "problem": p} for w, p in bads[:8]],
-                            "start_snap": last["start_snap"], "installed": last["installed"], "incarnations": len(incs)})
+            last = inc_facts(incs[-1]) if incs else {"start_snap": 0, "installed": False, "applied_ids": set()}
+            groups = {}
+            for w, p in bads:
+                wid = ids.get(w["i"]) if ids else None
+                reapplied = (wid in last["applied_ids"]) if wid else None
+                if last["start_snap"] > 0 and reapplied is not True:
+                    branch = "restart.after_snapshot"      # at or below the snapshot the node started from: never replayed
+                elif last["installed"] and reapplied is not True:
+                    branch = "catchup.by_snapshot"         # covered by the snapshot the node installed: never applied here
+                elif reapplied is True:
+                    branch = sc["cls"] + ".applied_but_wrong"
+                else:
+                    branch = sc["cls"]
+                groups.setdefault(branch, []).append((w, p, reapplied))
+            for branch, g in sorted(groups.items()):
+                kinds = "+".join(sorted(set(w["kind"] for w, _, _ in g)))
+                w0, p0, r0 = g[0]
+                what = ("node %d after recovery: %d acknowledged write(s) not reflected, e.g. %s (%s; acknowledged %.2fs into the run); "
+                        "the node's last start loaded snapshot index %d, installed a leader snapshot: %s, re-applied this write after its last start: %s" %
+                        (nid, len(g), " ".join(_short(a) for a in w0["argv"]), p0, w0.get("t_ack", -1), last["start_snap"], last["installed"], r0))
+                self.violation(branch, "lost-write", kinds, what,
+                               {"node": nid, "lost": [{"argv": [_short(a) for a in w["argv"]], "problem": p, "reapplied": r} for w, p, r in g[:8]],
+                                "start_snap": last["start_snap"], "installed": last["installed"], "incarnations": len(incs)})
 
 
 def run_scenario(sc):
